@@ -560,7 +560,12 @@ def r2(ctx: Ctx, rep: Report):
                     continue      # untyped receiver, name-based candidates: read(<number of bytes>) is the buffer's read, not a sensor's
                 recv = ct.node.func.value
                 inside_sensor = fn.cls is not None and prog.is_subclass(fn.cls, sensor)
-                ok = fn is mr or inside_sensor
+                # a function that decodes the one sensor it was handed (single reads: _read_sensor / _read_setting) is
+                # no bulk read: there is no other value its ValueError could take down
+                single = isinstance(recv, ast.Name) and recv.id in fn.params and not any(
+                    isinstance(lp, (ast.For, ast.AsyncFor, ast.While, ast.ListComp, ast.DictComp, ast.SetComp, ast.GeneratorExp)) and any(x is ct.node for x in ast.walk(lp))
+                    for lp in ast.walk(fn.node))
+                ok = fn is mr or inside_sensor or single
                 rep.check(ok, "C11.R2", "read-caller:%s" % fn.short, fn.loc(ct.node), "Sensor.read is invoked from _map_response",
                           bad="%s calls %s outside _map_response: a ValueError of one sensor aborts the whole read" % (fn.short, norm(ct.node)[:60]))
     for famname in ("ET", "DT", "ES"):
